@@ -170,7 +170,7 @@ func (c *Ctx) newFrame(fn *ssa.Function, caller *Frame) *Frame {
 func (c *Ctx) funcEnv(s *State, fr *Frame, entry bool) *SpecEnv {
 	fn := fr.Fn
 	pkg := c.pkgOf(fn)
-	old := &SpecEnv{S: s, C: c, Heap: s.Old.Heap, Cells: s.Old.Cells, Vars: map[string]TV{}, Pkg: pkg, Ghost: s.Old.Ghost}
+	old := &SpecEnv{S: s, C: c, Heap: s.Old.Heap, Cells: s.Old.Cells, Vars: map[string]TV{}, Pkg: pkg, Ghost: s.Ghost}
 	env := &SpecEnv{S: s, C: c, Heap: s.Heap, Cells: s.Cells, Vars: map[string]TV{}, Pkg: pkg, Ghost: s.Ghost, Old: old}
 	top := fr
 	for top.Caller != nil {
@@ -197,6 +197,10 @@ func (c *Ctx) funcEnv(s *State, fr *Frame, entry bool) *SpecEnv {
 	}
 	loc := func(name string) *Loc { return c.findLocal(top, name) }
 	env.Locals = loc
+	// inside old(...) only heap dereferences refer to the entry state; local variables keep their current values
+	// (parameter names denote the entry values of the parameters)
+	old.Locals = loc
+	old.Cells = s.Cells
 	if !entry {
 		if top.Fn.Signature.Recv() != nil && len(top.Fn.Params) > 0 {
 			if l := c.findLocal(top, top.Fn.Params[0].Name()); l != nil {
@@ -1024,6 +1028,15 @@ func (s *State) bitOr(b *ssa.BinOp, bt *types.Basic, x, y Term) Term {
 	if bitsOf(bt) == 8 && isUnsigned(bt) {
 		return fmt.Sprintf("(bor8 %s %s)", x, y)
 	}
+	// (a << k) | c is a*2^k + c whenever 0 <= c < 2^k at run time
+	if k, ok := shlConst(b.X); ok {
+		s.C.assume("bitwise operator bit.or is uninterpreted (only range axioms)")
+		return fmt.Sprintf("(ite (and (<= 0 %s) (< %s %s)) (+ %s %s) (bit.or %s %s))", y, y, pow2lit(k), x, y, x, y)
+	}
+	if k, ok := shlConst(b.Y); ok {
+		s.C.assume("bitwise operator bit.or is uninterpreted (only range axioms)")
+		return fmt.Sprintf("(ite (and (<= 0 %s) (< %s %s)) (+ %s %s) (bit.or %s %s))", x, x, pow2lit(k), x, y, x, y)
+	}
 	return s.bitFun("bit.or", bt, x, y)
 }
 
@@ -1402,6 +1415,10 @@ func (s *State) execReturn(r *ssa.Return) ([]*State, bool) {
 	var vals []Value
 	for _, x := range r.Results {
 		vals = append(vals, s.get(x))
+	}
+	if fr.Caller != nil && fr.OnReturn != nil {
+		s.Frame = fr.Caller
+		return fr.OnReturn(s, vals)
 	}
 	if fr.Caller != nil {
 		// return into the caller frame
